@@ -374,6 +374,10 @@ def check(P, R):
     rets_ = [n for n in walk_shallow(ij.node) if isinstance(n, ast.Return) and n.value is not None]
     for r in rets_:
         v = r.value
+        if isinstance(v, ast.IfExp) and isinstance(v.test, ast.Name) and (is_const(v.orelse, None) or is_const(v.orelse, False)):
+            v = v.body          # `<detection> if accept else None`: no header, no JSON
+        elif is_const(v, None) or is_const(v, False):
+            continue            # the exit for a missing header
         ok = isinstance(v, ast.Call) and call_attr(v) == 'startswith' and v.args and is_const(v.args[0], 'application/json')
         det = ''
         if not ok:
